@@ -1685,6 +1685,7 @@ func (m *repoManager) commit(uuid dvid.UUID, note string, log []string) error {
 
 	t := time.Now()
 
+	dvid.VerifPoint("datastore.commit", uint64(v))
 	node.Lock()
 	node.locked = true
 	if len(note) != 0 {
